@@ -112,50 +112,7 @@ def random_deeper(n, stream):
 
 
 # --------------------------------------------------------------------------------- worker side
-_AUDIT = {"on": False, "events": [], "installed": False}
-_WATCH = {"os.remove", "os.rename", "os.mkdir", "os.rmdir", "os.system", "subprocess.Popen", "builtins.input", "builtins.input/result",
-          "builtins.breakpoint", "socket.connect", "socket.bind", "os.chdir", "os.chmod", "shutil.rmtree", "os.unlink", "os.truncate"}
-
-
-def _audit(event, args):
-    if not _AUDIT["on"]:
-        return
-    if event == "open":
-        mode = args[1] if len(args) > 1 else None
-        if isinstance(mode, str) and any(c in mode for c in "wax+"):
-            _AUDIT["events"].append(f"open:{mode}")
-    elif event in _WATCH:
-        _AUDIT["events"].append(event)
-
-
-def observed(fn):
-    """Run fn() under the effect sanitizer: returns (status, value, effects)."""
-    import io
-    import sys
-
-    if not _AUDIT["installed"]:
-        sys.addaudithook(_audit)
-        _AUDIT["installed"] = True
-    buf = io.StringIO()
-    old_out, old_err = sys.stdout, sys.stderr
-    sys.stdout = sys.stderr = buf
-    _AUDIT["events"] = []
-    _AUDIT["on"] = True
-    try:
-        try:
-            val = fn()
-            status = "value"
-        except BaseException as exc:  # SystemExit, KeyboardInterrupt included
-            if type(exc).__name__ == "CpuBudget":
-                raise
-            val, status = None, "raise:" + type(exc).__name__
-    finally:
-        _AUDIT["on"] = False
-        sys.stdout, sys.stderr = old_out, old_err
-    effects = list(_AUDIT["events"])
-    if buf.getvalue():
-        effects.append("stdout:" + buf.getvalue()[:40])
-    return status, val, effects
+from ..effects import observed  # noqa: E402  (effect sanitizer shared with other checks)
 
 
 def _canon(val, depth=0):
